@@ -59,6 +59,11 @@ func (i *documentIndex) UpdateIndex(oplog ipfslog.Log, _ []ipfslog.Entry) error 
 
 	handled := map[string]struct{}{}
 
+	// the view is rebuilt from what the log lists NOW: patching the map the
+	// previous update left would keep the documents of entries the log no
+	// longer lists (a Load with a limit trims it)
+	index := map[string][]byte{}
+
 	for idx := range entries {
 		item, err := operation.ParseOperation(entries[size-idx-1])
 		if err != nil {
@@ -74,7 +79,7 @@ func (i *documentIndex) UpdateIndex(oplog ipfslog.Log, _ []ipfslog.Entry) error 
 				}
 
 				handled[opDoc.GetKey()] = struct{}{}
-				i.index[opDoc.GetKey()] = opDoc.GetValue()
+				index[opDoc.GetKey()] = opDoc.GetValue()
 			}
 
 			continue
@@ -99,12 +104,14 @@ func (i *documentIndex) UpdateIndex(oplog ipfslog.Log, _ []ipfslog.Entry) error 
 		handled[*item.GetKey()] = struct{}{}
 		switch item.GetOperation() {
 		case "PUT":
-			i.index[*item.GetKey()] = item.GetValue()
+			index[*item.GetKey()] = item.GetValue()
 
 		case "DEL":
-			delete(i.index, *item.GetKey())
+			delete(index, *item.GetKey())
 		}
 	}
+
+	i.index = index
 
 	return nil
 }
